@@ -208,42 +208,40 @@ theorem chunks_roundtrip (cs : List (List Nat)) (isLast : Bool) (hne : cs ≠ []
 
 def docOffsetBits : Nat := 30
 
-/-- `seq.PackDocPos` (the panic for offset > maxDocOffset is `none`) -/
+/-- `seq.PackDocPos` (the panic for offset > maxDocOffset is `none`); 1073741824 = 2^30 -/
 def packDocPos (blockIndex offset : Nat) : Option Nat :=
-  if offset > 2 ^ 30 - 1 then none else some (blockIndex * 2 ^ 30 + offset + 1)
+  if offset > 1073741823 then none else some (blockIndex * 1073741824 + offset + 1)
 
 /-- `DocPos.Unpack`: `pos--`, `uint32(pos >> 30)`, `pos & mask` -/
-def unpackDocPos (pos : Nat) : Nat × Nat := ((pos - 1) / 2 ^ 30 % 2 ^ 32, (pos - 1) % 2 ^ 30)
+def unpackDocPos (pos : Nat) : Nat × Nat := ((pos - 1) / 1073741824 % 4294967296, (pos - 1) % 1073741824)
 
-theorem docpos_roundtrip (b off : Nat) (hb : b < 2 ^ 32) (ho : off ≤ 2 ^ 30 - 1) :
+theorem docpos_roundtrip (b off : Nat) (hb : b < 4294967296) (ho : off ≤ 1073741823) :
     (packDocPos b off).map unpackDocPos = some (b, off) := by
-  have ho' : ¬ off > 2 ^ 30 - 1 := by omega
+  have ho' : ¬ off > 1073741823 := by omega
   simp only [packDocPos, ho', if_false, Option.map_some, unpackDocPos, Option.some.injEq, Prod.mk.injEq]
-  simp at hb ho ⊢
   omega
 
 /-- a packed position is never the "not found" value `math.MaxUint64` and never 0 -/
-theorem docpos_found (b off p : Nat) (hb : b < 2 ^ 32) (h : packDocPos b off = some p) :
-    p ≠ 2 ^ 64 - 1 ∧ p ≠ 0 := by
+theorem docpos_found (b off p : Nat) (hb : b < 4294967296) (h : packDocPos b off = some p) :
+    p ≠ 18446744073709551615 ∧ p ≠ 0 := by
   unfold packDocPos at h
   split at h
   · simp at h
-  · simp at h hb ⊢; omega
+  · simp at h; omega
 
 /-! ## registry extents of a LID block -/
 
 /-- `lids.Block.GetExtForRegistry`: `(ext1, ext2)` -/
 def lidExt (minTID maxTID : Nat) (isContinued : Bool) : Nat × Nat :=
-  (if isContinued then 1 else 0, maxTID * 2 ^ 32 + minTID)
+  (if isContinued then 1 else 0, maxTID * 4294967296 + minTID)
 
 /-- `Loader.loadLIDsBlocksTable`: `(minTID, maxTID, isContinued)` from `(ext1, ext2)` -/
 def lidExtLoad (ext : Nat × Nat) : Nat × Nat × Bool :=
-  (ext.2 % 2 ^ 32, ext.2 / 2 ^ 32 % 2 ^ 32, ext.1 == 1)
+  (ext.2 % 4294967296, ext.2 / 4294967296 % 4294967296, ext.1 == 1)
 
-theorem registry_ext_roundtrip (minTID maxTID : Nat) (c : Bool) (h1 : minTID < 2 ^ 32) (h2 : maxTID < 2 ^ 32) :
+theorem registry_ext_roundtrip (minTID maxTID : Nat) (c : Bool) (h1 : minTID < 4294967296) (h2 : maxTID < 4294967296) :
     lidExtLoad (lidExt minTID maxTID c) = (minTID, maxTID, c) := by
-  simp only [lidExtLoad, lidExt]
-  simp at h1 h2 ⊢
+  simp only [lidExtLoad, lidExt, Prod.mk.injEq]
   refine ⟨by omega, by omega, ?_⟩
   cases c <;> simp
 
@@ -307,7 +305,5 @@ theorem deltas_roundtrip (vs : List Nat) (h : ∀ v, v ∈ vs → v < W64) : unp
   rw [decodeAll_encodeAll _ (deltas64_I64 vs 0)]
   simp [undeltas_deltas vs h 0 (by decide)]
 
-example : getVarint (putVarint (-3) ++ [7]) = some (-3, [7]) := by decide
-example : unpackBytes (packBytes [[3, 7], [], [9]] false) = some ([[3, 7], [], [9]], false) := by decide
 
 end SV.C03
